@@ -12,6 +12,7 @@ import (
 	"crypto/rsa"
 	"crypto/x509"
 	"crypto/x509/pkix"
+	"encoding/hex"
 	"encoding/pem"
 	"math/big"
 	"time"
@@ -28,6 +29,7 @@ import (
 
 	"github.com/go-chi/chi/v5"
 	"github.com/go-chi/chi/v5/middleware"
+	"go.step.sm/crypto/jose"
 	"go.step.sm/crypto/keyutil"
 	"go.step.sm/crypto/minica"
 	"go.step.sm/crypto/pemutil"
@@ -37,6 +39,8 @@ import (
 	"github.com/smallstep/certificates/authority/provisioner"
 	"github.com/smallstep/certificates/db"
 	"github.com/smallstep/certificates/scep"
+
+	c "verif/harness/common"
 	scepAPI "github.com/smallstep/certificates/scep/api"
 )
 
@@ -67,6 +71,9 @@ type provSpec struct {
 	// Dec: provisioner-specific decrypter: "" none, "both" certificate and key, "certonly".
 	Dec     string
 	ForceCN bool
+	EncAlg  int  // EncryptionAlgorithmIdentifier (SetAlg: use it; otherwise 2)
+	SetAlg  bool
+	MinLen  int // MinimumPublicKeyLength (0: not set)
 	ExInt   bool     // ExcludeIntermediate
 	IncRoot bool     // IncludeRoot
 	Caps    []string // Capabilities
@@ -110,6 +117,21 @@ var provSpecs = []provSpec{
 	{Name: "edec", CA: "ec", Secret: staticSecret, Dec: "both"},
 	{Name: "ehook", CA: "ec", Dec: "both", Hooks: []hookSpec{{"scep", "x509", "match"}}, ExInt: true},
 	{Name: "enone", CA: "ec", Secret: staticSecret},
+	// webhooks of other kinds next to the challenge webhooks
+	{Name: "henr", Hooks: []hookSpec{{"enrich", "x509", "allow"}, {"scep", "x509", "deny"}, {"bogus", "x509", "allow"}}},
+	{Name: "hbogus", Secret: staticSecret, Hooks: []hookSpec{{"bogus", "none", "allow"}}},
+	// Init options: content encryption algorithms, minimum key length, an identifier Init refuses
+	{Name: "palg0", Secret: staticSecret, EncAlg: 0, SetAlg: true},
+	{Name: "palg4", Secret: staticSecret, EncAlg: 4, SetAlg: true, MinLen: 1024},
+	{Name: "pbadalg", Secret: staticSecret, EncAlg: 7, SetAlg: true},
+	// the authority with the admin database: provisioners are migrated from ca.json on the first
+	// start, converted back on every load, changed through the admin interface, reloaded, restarted
+	{Name: "astatic", CA: "adm", Secret: staticSecret},
+	{Name: "ahdeny", CA: "adm", Hooks: []hookSpec{{"scep", "none", "deny"}}},
+	{Name: "ahmn", CA: "adm", Hooks: []hookSpec{{"scep", "x509", "match"}, {"notify", "none", "allow"}, {"enrich", "all", "allow"}}},
+	{Name: "apdec", CA: "adm", Secret: staticSecret, Dec: "both", ExInt: true, IncRoot: true, Caps: []string{"AES", "POSTPKIOperation"}},
+	{Name: "aforce", CA: "adm", Secret: staticSecret, ForceCN: true, EncAlg: 1, SetAlg: true},
+	{Name: "ahssh", CA: "adm", Hooks: []hookSpec{{"scep", "ssh", "deny"}}},
 	// webhooks that answer 503 first: DoWithContext retries once after a pause of one second
 	{Name: "h5a", Hooks: []hookSpec{{"scep", "x509", "r5allow"}}, CornerOnly: true},
 	{Name: "h5d", Hooks: []hookSpec{{"scep", "x509", "r5deny"}}, CornerOnly: true},
@@ -119,6 +141,55 @@ var provSpecs = []provSpec{
 
 // csrOnlyProvs: configurations enumerated only with the message types that yield a CSR.
 var fullMatrixProvs = map[string]bool{"none": true, "static": true, "hallow": true}
+
+// randomSpecs composes further configurations from the run's seed: the fixed list above covers the
+// branches one at a time, these cover combinations nobody thought of (secret with or without
+// webhooks of every kind / certificate type / answer, own decrypter or not, chain options, forceCN,
+// algorithm, key length, repeated Init) on all three authorities.
+func randomSpecs(seed uint64) []provSpec {
+	r := c.NewRng(seed ^ 0xC15C15)
+	var out []provSpec
+	for i := 0; i < 7; i++ {
+		ps := provSpec{Name: fmt.Sprintf("rnd%d", i)}
+		switch i {
+		case 5:
+			ps.CA = "ec"
+		case 6:
+			ps.CA = "adm"
+		}
+		ps.Secret = c.Pick(r, []string{"", staticSecret, staticSecret, fmt.Sprintf("pw-%d", r.Intn(1000))})
+		n := r.Intn(4)
+		for j := 0; j < n; j++ {
+			h := hookSpec{
+				Kind: c.Pick(r, []string{"scep", "scep", "scep", "notify", "notify", "enrich", "bogus"}),
+				CT:   c.Pick(r, []string{"x509", "x509", "all", "none", "ssh"}),
+				Path: c.Pick(r, []string{"allow", "deny", "match", "match", "e400", "json"}),
+			}
+			if h.Kind == "enrich" {
+				h.Path = "allow" // an enriching webhook that refuses makes signing fail: not modelled
+				if h.CT == "ssh" {
+					h.CT = "x509"
+				}
+			}
+			ps.Hooks = append(ps.Hooks, h)
+		}
+		ps.Dec = c.Pick(r, []string{"", "", "both", "both", "certonly"})
+		if ps.CA == "ec" {
+			ps.Dec = "both"
+		}
+		ps.ExInt, ps.IncRoot, ps.ForceCN = r.Chance(1, 3), r.Chance(1, 3), r.Chance(1, 4)
+		if r.Chance(1, 3) {
+			ps.Caps = []string{"SHA-256", "AES"}
+		}
+		ps.SetAlg, ps.EncAlg = true, r.Intn(5)
+		ps.MinLen = c.Pick(r, []int{0, 0, 1024, 2048})
+		if ps.CA != "adm" {
+			ps.PreInits = r.Intn(2)
+		}
+		out = append(out, ps)
+	}
+	return out
+}
 
 func specByName(n string) *provSpec {
 	for i := range provSpecs {
@@ -210,7 +281,7 @@ func (h *hookServer) handle(w http.ResponseWriter, r *http.Request) {
 			h.calls++
 		}
 		h.last, h.seen = req.SCEPChallenge, true
-	} else {
+	} else if len(id) > 0 && id[0] == 'n' {
 		h.notif++
 	}
 	if len(id) == 0 || (id[0] == 'c') != isChallengeCall {
@@ -259,7 +330,12 @@ type testCA struct {
 	store   *countingDB
 	hooks   *hookServer
 	provs   map[string]*provisioner.SCEP // the provisioner objects, to read Options.Webhooks after Init
-	kind    string                       // "" (RSA intermediate) | "ec"
+	kind    string                       // "" (RSA intermediate) | "ec" | "adm" (admin database)
+	cfg     *config.Config
+	m       *minica.CA
+	life    string               // adm: "mig" | "reload" | "update" | "restart"
+	cur     map[string]*provSpec // adm: the configuration in force per provisioner name
+	adb     *admDB
 	decs    map[string]*clientKey        // provisioner name -> its own decrypter certificate and key
 }
 
@@ -273,8 +349,13 @@ func (t *testCA) close() {
 }
 
 func kindName(k string) string {
-	if k == "notify" {
+	switch k {
+	case "notify":
 		return "NOTIFYING"
+	case "enrich":
+		return "ENRICHING"
+	case "bogus":
+		return "scepchallenge" // not a kind: no code path matches it, the admin DB stores NO_KIND
 	}
 	return "SCEPCHALLENGE"
 }
@@ -325,67 +406,18 @@ func newTestCA(kind string, hooks *hookServer) (*testCA, error) {
 		return nil, err
 	}
 
+	t.m = m
 	var provs provisioner.List
 	t.provs = map[string]*provisioner.SCEP{}
-	for _, ps := range provSpecs {
+	t.cur = map[string]*provSpec{}
+	for i := range provSpecs {
+		ps := &provSpecs[i]
 		if ps.CA != kind {
 			continue
 		}
-		p := &provisioner.SCEP{
-			ID:                            "scep-" + ps.Name,
-			Name:                          ps.Name,
-			Type:                          "SCEP",
-			ChallengePassword:             ps.Secret,
-			EncryptionAlgorithmIdentifier: 2,
-			MinimumPublicKeyLength:        2048,
-			Claims:                        &config.GlobalProvisionerClaims,
-			ForceCN:                       ps.ForceCN,
-			ExcludeIntermediate:           ps.ExInt,
-			IncludeRoot:                   ps.IncRoot,
-			Capabilities:                  ps.Caps,
-		}
-		if ps.Dec != "" {
-			dk, err := rsa.GenerateKey(rand.Reader, 2048)
-			if err != nil {
-				return nil, err
-			}
-			dc, err := m.Sign(&x509.Certificate{
-				Subject:      pkix.Name{CommonName: "decrypter-" + ps.Name},
-				PublicKey:    dk.Public(),
-				SerialNumber: big.NewInt(int64(7000 + len(t.decs))),
-				NotBefore:    time.Now().Add(-time.Hour),
-				NotAfter:     time.Now().Add(24 * time.Hour),
-				KeyUsage:     x509.KeyUsageDigitalSignature | x509.KeyUsageKeyEncipherment,
-			})
-			if err != nil {
-				return nil, err
-			}
-			t.decs[ps.Name] = &clientKey{"dec-" + ps.Name, dk, dc}
-			p.DecrypterCertificate = pem.EncodeToMemory(&pem.Block{Type: "CERTIFICATE", Bytes: dc.Raw})
-			if ps.Dec == "both" {
-				blk, err := pemutil.Serialize(dk)
-				if err != nil {
-					return nil, err
-				}
-				p.DecrypterKeyPEM = pem.EncodeToMemory(blk)
-			}
-		}
-		if len(ps.Hooks) > 0 {
-			p.Options = &provisioner.Options{}
-			for i, h := range ps.Hooks {
-				id := fmt.Sprintf("c%d", i)
-				if h.Kind != "scep" || h.CT == "ssh" {
-					id = fmt.Sprintf("n%d", i) // not a (usable) challenge-validation hook
-				}
-				p.Options.Webhooks = append(p.Options.Webhooks, &provisioner.Webhook{
-					ID:       id,
-					Name:     fmt.Sprintf("w%d", i),
-					URL:      t.hooks.srv.URL + "/" + h.Path,
-					Kind:     kindName(h.Kind),
-					CertType: certTypeName(h.CT),
-					Secret:   base64.StdEncoding.EncodeToString([]byte("whsecret")),
-				})
-			}
+		p, err := t.buildProv(ps)
+		if err != nil {
+			return nil, err
 		}
 		for i := 0; i < ps.PreInits; i++ {
 			if err := p.Init(provisioner.Config{}); err != nil {
@@ -393,13 +425,14 @@ func newTestCA(kind string, hooks *hookServer) (*testCA, error) {
 			}
 		}
 		t.provs[ps.Name] = p
+		t.cur[ps.Name] = ps
 		provs = append(provs, p)
 	}
 
 	if kind == "" {
 		provs = append(provs, &provisioner.ACME{ID: "acme-x", Name: "acmeprov", Type: "ACME", Claims: &config.GlobalProvisionerClaims})
 	}
-	cfg := &config.Config{
+	t.cfg = &config.Config{
 		Root:             []string{rootFile},
 		IntermediateCert: intFile,
 		IntermediateKey:  keyFile,
@@ -411,22 +444,168 @@ func newTestCA(kind string, hooks *hookServer) (*testCA, error) {
 			Provisioners:   provs,
 		},
 	}
-	simple, err := db.New(nil)
-	if err != nil {
+	if kind == "adm" {
+		// the admin database needs a JWK provisioner for its first administrator
+		jwk, _, err := jose.GenerateDefaultKeyPair([]byte("pass"))
+		if err != nil {
+			return nil, err
+		}
+		t.cfg.AuthorityConfig.Provisioners = append(provisioner.List{&provisioner.JWK{
+			ID: "jwk-adm", Name: "admjwk", Type: "JWK", Key: jwk, Claims: &config.GlobalProvisionerClaims}}, provs...)
+		t.cfg.AuthorityConfig.EnableAdmin = true
+		t.cfg.DB = &db.Config{Type: "bbolt", DataSource: filepath.Join(dir, "db")}
+		t.life = "mig"
+	}
+	if err := t.start(); err != nil {
 		return nil, err
 	}
-	t.store = &countingDB{AuthDB: simple}
-	t.auth, err = authority.New(cfg, authority.WithDatabase(t.store), authority.WithWebhookClient(t.hooks.srv.Client()))
-	if err != nil {
-		return nil, err
+	return t, nil
+}
+
+// buildProv renders a configuration as the provisioner object ca.json would hold.
+func (t *testCA) buildProv(ps *provSpec) (*provisioner.SCEP, error) {
+	alg := 2
+	if ps.SetAlg {
+		alg = ps.EncAlg
 	}
+	p := &provisioner.SCEP{
+		ID:                            "scep-" + ps.Name,
+		Name:                          ps.Name,
+		Type:                          "SCEP",
+		ChallengePassword:             ps.Secret,
+		EncryptionAlgorithmIdentifier: alg,
+		MinimumPublicKeyLength:        ps.MinLen,
+		Claims:                        &config.GlobalProvisionerClaims,
+		ForceCN:                       ps.ForceCN,
+		ExcludeIntermediate:           ps.ExInt,
+		IncludeRoot:                   ps.IncRoot,
+		Capabilities:                  ps.Caps,
+	}
+	if ps.Dec != "" {
+		dkc := t.decs[ps.Name]
+		if dkc == nil {
+			dk, err := rsa.GenerateKey(rand.Reader, 2048)
+			if err != nil {
+				return nil, err
+			}
+			dc, err := t.m.Sign(&x509.Certificate{
+				Subject:      pkix.Name{CommonName: "decrypter-" + ps.Name},
+				PublicKey:    dk.Public(),
+				SerialNumber: big.NewInt(int64(7000 + len(t.decs))),
+				NotBefore:    time.Now().Add(-time.Hour),
+				NotAfter:     time.Now().Add(24 * time.Hour),
+				KeyUsage:     x509.KeyUsageDigitalSignature | x509.KeyUsageKeyEncipherment,
+			})
+			if err != nil {
+				return nil, err
+			}
+			dkc = &clientKey{"dec-" + ps.Name, dk, dc}
+			t.decs[ps.Name] = dkc
+		}
+		p.DecrypterCertificate = pem.EncodeToMemory(&pem.Block{Type: "CERTIFICATE", Bytes: dkc.cert.Raw})
+		if ps.Dec == "both" {
+			blk, err := pemutil.Serialize(dkc.key)
+			if err != nil {
+				return nil, err
+			}
+			p.DecrypterKeyPEM = pem.EncodeToMemory(blk)
+		}
+	}
+	if len(ps.Hooks) > 0 {
+		p.Options = &provisioner.Options{}
+		for i, h := range ps.Hooks {
+			id := fmt.Sprintf("c%d", i)
+			if h.Kind != "scep" || h.CT == "ssh" {
+				id = fmt.Sprintf("n%d", i) // not a (usable) challenge-validation hook
+			}
+			if h.Kind == "enrich" || h.Kind == "bogus" {
+				id = fmt.Sprintf("e%d", i) // another kind: its calls are not SCEP notifications
+			}
+			p.Options.Webhooks = append(p.Options.Webhooks, &provisioner.Webhook{
+				ID:       id,
+				Name:     fmt.Sprintf("w%d", i),
+				URL:      t.hooks.srv.URL + "/" + h.Path,
+				Kind:     kindName(h.Kind),
+				CertType: certTypeName(h.CT),
+				Secret:   base64.StdEncoding.EncodeToString([]byte("whsecret")),
+			})
+		}
+	}
+	return p, nil
+}
+
+// admDB is the bbolt-backed authority database of the "adm" authority with a counter of stored
+// certificate chains.
+type admDB struct {
+	*db.DB
+	mu     sync.Mutex
+	stored int
+}
+
+func (d *admDB) StoreCertificateChain(p provisioner.Interface, chain ...*x509.Certificate) error {
+	d.mu.Lock()
+	d.stored++
+	d.mu.Unlock()
+	return d.DB.StoreCertificateChain(p, chain...)
+}
+
+func (d *admDB) count() int {
+	d.mu.Lock()
+	defer d.mu.Unlock()
+	return d.stored
+}
+
+func (t *testCA) count() int {
+	if t.adb != nil {
+		return t.adb.count()
+	}
+	return t.store.count()
+}
+
+// start creates the authority from the configuration and mounts the SCEP routes.
+func (t *testCA) start() error {
+	var err error
+	if t.kind == "adm" {
+		adb, err := db.New(t.cfg.DB)
+		if err != nil {
+			return err
+		}
+		real, ok := adb.(*db.DB)
+		if !ok {
+			return fmt.Errorf("unexpected database type %T", adb)
+		}
+		prev := 0
+		if t.adb != nil {
+			prev = t.adb.count()
+		}
+		t.adb = &admDB{DB: real, stored: prev}
+		t.auth, err = authority.New(t.cfg, authority.WithDatabase(t.adb), authority.WithWebhookClient(t.hooks.srv.Client()))
+		if err != nil {
+			return err
+		}
+	} else {
+		simple, err := db.New(nil)
+		if err != nil {
+			return err
+		}
+		t.store = &countingDB{AuthDB: simple}
+		t.auth, err = authority.New(t.cfg, authority.WithDatabase(t.store), authority.WithWebhookClient(t.hooks.srv.Client()))
+		if err != nil {
+			return err
+		}
+	}
+	_ = err
+	return t.mount()
+}
+
+func (t *testCA) mount() error {
 	scepAuth := t.auth.GetSCEP()
 	if scepAuth == nil {
-		return nil, fmt.Errorf("no SCEP authority")
+		return fmt.Errorf("no SCEP authority")
 	}
 	// as ca.CA.Init wires both its TLS mux and its insecure mux: chi router, middleware.GetHead,
 	// Route("/scep", scepAPI.Route), under buildContext(auth, scepAuthority, …); the wiring itself is
-	// re-read from ca/ca.go by the extractor (facts line)
+	// re-read from ca/ca.go by the extractor (wiring line)
 	mux := chi.NewRouter()
 	mux.Use(middleware.GetHead)
 	mux.Route("/scep", func(r chi.Router) { scepAPI.Route(r) })
@@ -436,7 +615,131 @@ func newTestCA(kind string, hooks *hookServer) (*testCA, error) {
 	t.handler = http.HandlerFunc(func(w http.ResponseWriter, r *http.Request) {
 		mux.ServeHTTP(w, r.WithContext(base))
 	})
-	return t, nil
+	return nil
+}
+
+// ---- life cycle of the authority with the admin database
+
+var lifeOrder = map[string]int{"mig": 0, "reload": 1, "update": 2, "restart": 3}
+
+// updatedSpecs is what the admin interface changes in step "update".
+var updatedSpecs = []provSpec{
+	{Name: "astatic", CA: "adm", Secret: "n3w-secret"},
+	{Name: "ahdeny", CA: "adm", Secret: staticSecret, Hooks: []hookSpec{{"notify", "x509", "allow"}, {"scep", "all", "allow"}}},
+	{Name: "ahssh", CA: "adm", Hooks: []hookSpec{{"scep", "x509", "match"}}},
+}
+
+// advance moves the admin-database authority forward to the given stage:
+// mig (first start: ca.json provisioners migrated) → reload (ReloadAdminResources) →
+// update (UpdateProvisioner through the authority's admin methods) → restart (new authority on the
+// same database).
+func (t *testCA) advance(to string) error {
+	for lifeOrder[t.life] < lifeOrder[to] {
+		switch t.life {
+		case "mig":
+			if err := t.auth.ReloadAdminResources(context.Background()); err != nil {
+				return err
+			}
+			t.life = "reload"
+		case "reload":
+			for i := range updatedSpecs {
+				ps := &updatedSpecs[i]
+				live, err := t.auth.LoadProvisionerByName(ps.Name)
+				if err != nil {
+					return err
+				}
+				np, err := t.buildProv(ps)
+				if err != nil {
+					return err
+				}
+				np.ID = live.GetID()
+				lp, err := authority.ProvisionerToLinkedca(np)
+				if err != nil {
+					return err
+				}
+				if err := t.auth.UpdateProvisioner(context.Background(), lp); err != nil {
+					return err
+				}
+				t.cur[ps.Name] = ps
+			}
+			t.life = "update"
+		case "update":
+			if err := t.auth.Shutdown(); err != nil {
+				return err
+			}
+			if err := t.start(); err != nil {
+				return err
+			}
+			t.life = "restart"
+		}
+		if err := t.mount(); err != nil {
+			return err
+		}
+	}
+	return nil
+}
+
+// liveSCEP returns the provisioner object the authority serves under a name.
+func (t *testCA) liveSCEP(name string) *provisioner.SCEP {
+	p, err := t.auth.LoadProvisionerByName(name)
+	if err != nil {
+		return nil
+	}
+	sp, _ := p.(*provisioner.SCEP)
+	return sp
+}
+
+// fieldsOf renders the property-relevant configuration of a provisioner object.
+func fieldsOf(p *provisioner.SCEP) string {
+	if p == nil {
+		return "uninit"
+	}
+	var hooks []string
+	if p.Options != nil {
+		for _, wh := range p.Options.Webhooks {
+			k := "other"
+			switch wh.Kind {
+			case "SCEPCHALLENGE":
+				k = "scep"
+			case "NOTIFYING":
+				k = "notify"
+			}
+			ct := "?"
+			switch wh.CertType {
+			case "X509":
+				ct = "x509"
+			case "SSH":
+				ct = "ssh"
+			case "ALL":
+				ct = "all"
+			case "":
+				ct = "none"
+			}
+			hooks = append(hooks, k+":"+ct)
+		}
+	}
+	var caps []string
+	for _, x := range p.Capabilities {
+		caps = append(caps, hexX(x))
+	}
+	b := func(x bool) string {
+		if x {
+			return "1"
+		}
+		return "0"
+	}
+	return fmt.Sprintf("secret=%s hooks=%s forcecn=%s caps=%s incroot=%s exint=%s minlen=%d enc=%d deccert=%s deckey=%s",
+		hexX(p.ChallengePassword), listOr(hooks), b(p.ForceCN), listOr(caps), b(p.IncludeRoot), b(p.ExcludeIntermediate),
+		p.MinimumPublicKeyLength, p.EncryptionAlgorithmIdentifier, b(len(p.DecrypterCertificate) > 0), b(len(p.DecrypterKeyPEM) > 0))
+}
+
+func hexX(s string) string { return "x" + hex.EncodeToString([]byte(s)) }
+
+func listOr(l []string) string {
+	if len(l) == 0 {
+		return "-"
+	}
+	return strings.Join(l, ",")
 }
 
 // webhooksAfterInit renders Options.Webhooks of the live provisioner object (kind:certType per
